@@ -342,6 +342,10 @@ class sptensor:
         tt_valscheck(vals, False)
         if subs.size > 1 and vals.shape[0] != subs.shape[0]:
             assert False, "Number of subscripts and values must be equal"
+        if vals.dtype.kind in "bui" and vals.dtype.itemsize < 8:
+            # Combine in the platform integer, as numpy's own reductions do: the
+            # combined value of duplicates need not fit a boolean or narrow integer
+            vals = vals.astype(np.int64)
 
         # Extract the shape
         if shape is not None:
